@@ -229,3 +229,23 @@ def unparse(n, limit=120):
 def require(cond, msg):
     if not cond:
         raise AnalysisError(msg)
+
+
+def reuse_rule(ctx, rule_fn, old_id, new_id, description, keep, min_instances=1):
+    """Re-issue (a subset of) another property's rule under this property: the
+    same structural clause is a necessary condition of both."""
+    from ..engine.report import RuleResult
+
+    src = rule_fn(ctx)
+    r = RuleResult(new_id, description, min_instances)
+    for i in src.instances:
+        if not keep(i):
+            continue
+        c = i.construct.replace(old_id, new_id)
+        if i.verdict == "violation":
+            r.violation(c, i.loc, i.reason, **i.detail)
+        elif i.verdict == "exempt":
+            r.exempt(c, i.loc, i.reason)
+        else:
+            r.ok(c, i.loc, i.reason)
+    return r
